@@ -696,7 +696,7 @@ func genRing(t *rapid.T) RingCase {
 
 var specRing = pbt.Register(&pbt.Spec[RingCase]{
 	Property: "C06", Name: "C06.ring", Rule: ringRule,
-	Gen: genRing, Run: RunRing, Quick: 50000, Thorough: 300000,
+	Gen: genRing, Run: RunRing, Quick: 50000, Thorough: 300000, Replicas: 4, ReplicaEvery: 16,
 	Crashy: true, CaseCPU: 10 * time.Second,
 })
 
